@@ -329,6 +329,25 @@ Proof.
   - chunks_eq.
 Qed.
 
+(* raw text and print need nothing of the generator's options (no call name, no message bundle): usable with any jopts,
+   e.g. for the resolved items of a translated message (Proofs/MsgThreeSided.v) *)
+Lemma sgen_print_raw t : GQ_s (SRaw t).
+Proof.
+  intros lv f st j sc' n' i bf a sc n Hf Hn Hlv Hwf Hs Eg. rewrite sgen_raw in Eg. inversion Eg; subst. clear Eg.
+  destruct f as [|f]; [cbn in Hf; lia|]. rewrite snode_raw. eapply gres_walk; [reflexivity|exact Hs|]. intros st1 H1. cbn [jwalk_node sprint].
+  unfold write_raw_text. eapply gres_eq.
+  + gbind x Hx. apply gres_indent; exact H1.
+    unfold bufname. unfold gres. erewrite jbind_ok; [|erewrite jbind_ok; [reflexivity|reflexivity]].
+    replace (j_buf x) with bf by (symmetry; apply Hx). apply gres_emit. exact Hx.
+  + reflexivity.
+Qed.
+Lemma sgen_print_print e ds : GQ_s (SPrint e ds).
+Proof.
+  intros lv f st j sc' n' i bf a sc n Hf Hn Hlv Hwf Hs Eg. rewrite sgen_print_eq in Eg. inversion Eg; subst. clear Eg.
+  rewrite snode_print. cbn [sprint]. cbn [sdepth] in Hf. destruct Hs as (<- & <- & <- & <- & <-). cbn [swf] in Hwf.
+  destruct (cgen_print_dirs o e ds lv f st ltac:(lia) Hwf Hlv) as (stf & E & O & I & B & S & A & N). exists stf. repeat split; auto.
+Qed.
+
 Hypothesis HCN : cn_ok.
 (* no translation bundle: a message is rendered from its source *)
 Hypothesis HNB : o_msgs o = None.
